@@ -183,7 +183,7 @@ func C13(run *report.Run) {
 	// all sequences of <= 3 units (<= 4 in thorough), and in thorough lengths 5..6 of the first alphabet;
 	// both through Generator.SpecFile + WriteToFile (the two calls Generate makes for this file)
 	{
-		units := [][]byte{{'\n'}, {'a'}, {0}, {0xff}, {0xef, 0xbb, 0xbf}, []byte("é"), {'\r'}, {'`'}}
+		units := [][]byte{{'\n'}, {'a'}, {0}, {0xff}, {0xef, 0xbb, 0xbf}, []byte("é"), {'\r'}, {'`'}, {'%'}, []byte("%s"), []byte("{{")}
 		maxU := 3
 		if run.Tier == "thorough" {
 			maxU = 4
